@@ -117,4 +117,7 @@ VARIANTS += [
     dict(id="c07-reader-raises-on-unterminated-line", prop="C07", file=JF, expect="R07.4",
          old="                    last_decode_error = ValueError(\"Invalid log format.\")\n                    del self._log_number_offset[log_number + 1]\n                    continue\n",
          new="                    del self._log_number_offset[log_number + 1]\n                    raise ValueError(\"Invalid log format.\")\n"),
+    dict(id="c07-remembered-mtime-reset-in-loop", prop="C07", file=JF, expect="R07.6", count=2,
+         old="                    if self.grace_period is not None:\n                        try:\n                            current_mtime = os.",
+         new="                    mtime = None\n                    if self.grace_period is not None:\n                        try:\n                            current_mtime = os."),
 ]
